@@ -417,6 +417,22 @@ type crossRec struct {
 	obs    string
 }
 
+// nativeVector keeps the values the native harness consumes (its own vx* inputs) and drops
+// the engine-internal choices (scheduler picks, select picks, map-range starts).
+func nativeVector(vec []uint64, inputs []inputRec) []uint64 {
+	var out []uint64
+	for k, v := range vec {
+		if k < len(inputs) {
+			switch inputs[k].Kind {
+			case "sched", "select", "maporder":
+				continue
+			}
+		}
+		out = append(out, v)
+	}
+	return out
+}
+
 const maxCrossVal = 16
 
 // renderObs renders the harness's observations under the run's model in
@@ -661,7 +677,7 @@ func (w *worker) runOne(it workItem) {
 				ex.cvStride *= 2
 			}
 			if total%ex.cvStride == 0 {
-				ex.crossVal = append(ex.crossVal, crossRec{vector: r.vector(nil), end: endKind, obs: r.renderObs()})
+				ex.crossVal = append(ex.crossVal, crossRec{vector: nativeVector(r.vector(nil), r.inputs), end: endKind, obs: r.renderObs()})
 			}
 		}
 	}
